@@ -53,13 +53,18 @@ Proof.
 Qed.
 
 (* the temporary-file protocol, exactly *)
-Lemma write_cfg_exact e l a f0 : e_pretend e = false -> plain a -> l_path l = layer_path c a ->
-  fs_clean f0 -> closed f0 -> fs_get f0 (tmpp Lc a) = None ->
-  post (fun w => w_fs w = f0) (write_layerfile e l)
-    (fun _ w' => w_fs w' = filter (not_at (cfgp Lc a)) f0
-                 ++ [(cfgp Lc a, File (concat (layerfile_chunks (l_base l) (l_mounts l) (l_exports l))))]).
+Definition wr (p X : bytes) (f : fsT) : fsT := filter (not_at p) f ++ [(p, File X)].
+Definition chunks_of (l : layer) : bytes := concat (layerfile_chunks (l_base l) (l_mounts l) (l_exports l)).
+
+Lemma write_cfg_exact_gen e l a f0 : e_pretend e = false -> plain a -> l_path l = layer_path c a ->
+  (forall e0, In e0 f0 -> at_or_under (tmpp Lc a) (fst e0) = false) ->
+  post (fun w => w_fs w = f0) (write_layerfile e l) (fun _ w' => w_fs w' = wr (cfgp Lc a) (chunks_of l) f0).
 Proof.
-  intros Hnp Pa Ep Hc0 Hcl0 Htmp. unfold write_layerfile. rewrite (layerconfig_path_eq c Lc HLc HL l a Ep Pa).
+  intros Hnp Pa Ep Hno.
+  assert (Htmp : fs_get f0 (tmpp Lc a) = None).
+  { destruct (fs_get f0 (tmpp Lc a)) as [m|] eqn:E; [|reflexivity]. apply fs_get_In in E. apply Hno in E.
+    cbn [fst] in E. unfold at_or_under in E. now rewrite beq_refl in E. }
+  unfold write_layerfile. rewrite (layerconfig_path_eq c Lc HLc HL l a Ep Pa).
   apply (post_write_atomically _ _ (fun x w => w_fs w = f0 ++ [(tmpp Lc a, File x)])); [exact Hnp| | |];
     rewrite ?tmp_path_eq.
   - intros w w' Ew E. cbn [op_result] in E. unfold on_fres in E. rewrite Ew in E.
@@ -70,19 +75,29 @@ Proof.
   - intros w w' Ew E. cbn [op_result] in E. unfold on_fres in E. rewrite Ew in E.
     destruct (rename _ (tmpp Lc a) (cfgp Lc a)) as [f'|] eqn:Er; [|discriminate]. injection E as <-. cbn [set_fs w_fs].
     apply rename_shape in Er as [[E _]|(na & _ & _ & -> & _)]; [now apply (tmpp_ne_cfgp Lc HLc a Pa) in E|].
-    rewrite filter_app, map_app. f_equal.
+    unfold wr, chunks_of. rewrite filter_app, map_app. f_equal.
     + apply map_id_on. intros [p m] Hin. apply filter_In in Hin as [Hin _]. unfold move_entry. cbn [fst snd].
-      destruct (at_or_under (tmpp Lc a) p) eqn:Ea; [|reflexivity]. exfalso.
-      pose proof (Hc0 _ _ Hin) as Hp. apply clean_abs_repr in Hp as (ps & Pp & ->). unfold tmpp in Ea.
-      assert (PT : plains (Lc ++ [a; lcf ++ tmp_suffix])).
-      { apply plains_dirty; [exact HLc|exact Pa|constructor; [apply plain_lcf_tmp|constructor]]. }
-      apply at_or_under_pa in Ea as (r & ->); [|exact PT|exact Pp].
-      assert (Pr : plains r) by (apply plains_app in Pp; tauto).
-      pose proof (closed_none f0 _ Hcl0 PT Htmp r Pr) as En. apply (proj1 (fs_get_None _ _) En m Hin).
+      pose proof (Hno _ Hin) as Hn'. cbn [fst] in Hn'. now rewrite Hn'.
     + cbn [filter]. unfold not_at at 1. cbn [fst]. assert (beq (tmpp Lc a) (cfgp Lc a) = false) as ->.
       { apply beq_false. now apply tmpp_ne_cfgp. }
       cbn [negb map]. unfold move_entry. cbn [fst snd]. unfold at_or_under at 1. rewrite beq_refl. cbn [orb].
       unfold rel_suffix. rewrite (tmpp_not_root a Pa), skipn_all, app_nil_r. reflexivity.
+Qed.
+
+Lemma write_cfg_exact e l a f0 : e_pretend e = false -> plain a -> l_path l = layer_path c a ->
+  fs_clean f0 -> closed f0 -> fs_get f0 (tmpp Lc a) = None ->
+  post (fun w => w_fs w = f0) (write_layerfile e l)
+    (fun _ w' => w_fs w' = filter (not_at (cfgp Lc a)) f0
+                 ++ [(cfgp Lc a, File (concat (layerfile_chunks (l_base l) (l_mounts l) (l_exports l))))]).
+Proof.
+  intros Hnp Pa Ep Hc0 Hcl0 Htmp. apply write_cfg_exact_gen; auto.
+  intros [p m] Hin. cbn [fst]. destruct (at_or_under (tmpp Lc a) p) eqn:Ea; [|reflexivity]. exfalso.
+  pose proof (Hc0 _ _ Hin) as Hp. apply clean_abs_repr in Hp as (ps & Pp & ->). unfold tmpp in Ea.
+  assert (PT : plains (Lc ++ [a; lcf ++ tmp_suffix])).
+  { apply plains_dirty; [exact HLc|exact Pa|constructor; [apply plain_lcf_tmp|constructor]]. }
+  apply at_or_under_pa in Ea as (r & ->); [|exact PT|exact Pp].
+  assert (Pr : plains r) by (apply plains_app in Pp; tauto).
+  pose proof (closed_none f0 _ Hcl0 PT Htmp r Pr) as En. apply (proj1 (fs_get_None _ _) En m Hin).
 Qed.
 
 Lemma rebase_exact_final f0 a b content ms es :
